@@ -573,6 +573,11 @@ def rand_bytes(rng, maxlen=4):
     return [rng.randrange(256) for _ in range(rng.randrange(1, maxlen + 1))]
 
 
+# generation profile of the sequence being generated: probability of a FORWARD reference
+# (parent id >= own id: unsorted tables) and ragged columns kept entirely empty
+PROFILE = {"fwd": 0.15, "empty": frozenset(), "p_empty": 1.0}
+
+
 def rand_cell(rng, kind, n, ref=False):
     if kind == "f64":
         return UNKNOWN_TIME_BITS if rng.random() < 0.08 else rng.choice(FLOATS)
@@ -584,6 +589,8 @@ def rand_cell(rng, kind, n, ref=False):
             if r < 0.35 or n == 0:
                 return NULL if r < 0.9 or n else rng.choice([-2, 0, 1])
             if r < 0.93:
+                if rng.random() < PROFILE["fwd"]:
+                    return rng.randrange(n + 3)     # may point at a row added later (or never)
                 return rng.randrange(n)
             return rng.choice([n, n + 3, 2 ** 31 - 2])     # out of range reference
         return rng.choice([NULL, 0, 1, 2, 5, 2 ** 31 - 2])
@@ -602,7 +609,8 @@ def rand_ragged(rng, kind, is_str, n, ref=False):
 def rand_row(rng, name, n):
     _, fixed, ragged, selfref, _ = SCHEMAS[name]
     fx = [rand_cell(rng, kind, n, selfref == ("f", j)) for j, (_, kind) in enumerate(fixed)]
-    rg = [rand_ragged(rng, kind, is_str, n, selfref == ("r", j)) for j, (_, kind, is_str) in enumerate(ragged)]
+    rg = [[] if (j in PROFILE["empty"] and rng.random() < PROFILE["p_empty"])
+          else rand_ragged(rng, kind, is_str, n, selfref == ("r", j)) for j, (_, kind, is_str) in enumerate(ragged)]
     return [fx, rg]
 
 
@@ -646,7 +654,9 @@ def omit_optional(rng, name, cols, rows):
     return cols
 
 
-def gen_ops(rng, name, nops, p_bad=0.04, incr=0):
+def gen_ops(rng, name, nops, p_bad=0.04, incr=0, profile=None, prefix=None):
+    PROFILE.update({"fwd": 0.15, "empty": frozenset(), "p_empty": 1.0})
+    PROFILE.update(profile or {})
     ref = RefTable(name)
     _, fixed, ragged, selfref, md = SCHEMAS[name]
     nf, nr = len(fixed), len(ragged)
@@ -658,6 +668,12 @@ def gen_ops(rng, name, nops, p_bad=0.04, incr=0):
     names = [w[0] for w in weights]
     ws = [w[1] for w in weights]
     retry = None
+    for op in (prefix(rng, ref) if prefix else []):
+        ops.append(op)
+        try:
+            ref.apply(op)
+        except RefError:
+            pass
     for _ in range(nops):
         n = len(ref.rows)
         k = rng.choices(names, ws)[0]
@@ -715,7 +731,22 @@ def gen_ops(rng, name, nops, p_bad=0.04, incr=0):
                 keep = [rng.random() < 0.6 for _ in range(n + rng.choice([1, 2]))]
             else:
                 keep = [rng.random() < 0.7 for _ in range(n)]
-                if selfref is not None and rng.random() < 0.7:
+                pairs = []
+                if selfref is not None:
+                    kind, j = selfref
+                    pairs = [(i, p) for i, r in enumerate(ref.rows)
+                             for p in ([r[0][j]] if kind == "f" else r[1][j]) if 0 <= p < n and p != i]
+                if pairs and rng.random() < 0.3:
+                    # a kept row whose referenced row (before or after it: unsorted tables) is
+                    # dropped, with the other dropped rows anywhere or nowhere
+                    i, p = rng.choice(pairs)
+                    other = rng.choice(["none", "after", "any"])
+                    keep = [True] * n
+                    for q in range(n):
+                        if other == "any" or (other == "after" and q > max(i, p)):
+                            keep[q] = rng.random() < 0.7
+                    keep[i], keep[p] = True, False
+                elif selfref is not None and rng.random() < 0.7:
                     # close the kept set under references most of the time so that the
                     # remapping (not only the rejection) is exercised
                     kind, j = selfref
@@ -986,8 +1017,49 @@ class TableOps(Family):
                             ["getitem", 1], ["set_columns", omitted(2, 2)], ["append_columns", omitted(1, 3)],
                             ["append_columns", columns_of(nf, nr, rows(2, 5))], ["iter"]]
                     yield {"table": name, "incr": rng.choice([0, 1]), "ops": ops}
+        # keep_rows with arbitrary (forward, backward, self, NULL) references: every assignment
+        # of the parent column of a 3-row mutation table x every keep mask; a sample (quick) /
+        # all (thorough) of the same for the ragged parents column of individuals
+        for name in ("mutations", "individuals"):
+            _, fixed, ragged, selfref, _ = SCHEMAS[name]
+            nf, nr = len(fixed), len(ragged)
+            kind, j = selfref
+            combos = list(itertools.product([-1, 0, 1, 2], repeat=3))
+            masks = list(itertools.product([True, False], repeat=3))
+            todo = [(c, m) for c in combos for m in masks]
+            if name == "individuals" and tier == "quick":
+                todo = rng.sample(todo, 160)
+            PROFILE.update({"fwd": 0.0, "empty": frozenset(), "p_empty": 1.0})
+            for refs, mask in todo:
+                rows = [rand_row(rng, name, 0) for _ in range(3)]
+                for i, p in enumerate(refs):
+                    if kind == "f":
+                        rows[i][0][j] = p
+                    else:
+                        rows[i][1][j] = [p] if p != -1 or rng.random() < 0.5 else []
+                yield {"table": name, "incr": 0,
+                       "ops": [["set_columns", columns_of(nf, nr, rows)], ["keep_rows", list(mask)], ["iter"]]}
+        # one or several ragged columns entirely empty while their siblings are not: every
+        # subset, for every table with two or more ragged columns, then every row operation
+        for name in TABLES:
+            _, fixed, ragged, selfref, _ = SCHEMAS[name]
+            nr = len(ragged)
+            if nr < 2:
+                continue
+            for k in range(1, nr + 1):
+                for sub in itertools.combinations(range(nr), k):
+                    def prefix(rng_, ref, name=name):
+                        out = [["add_row", rand_row(rng_, name, i + 1)] for i in range(4)]
+                        return out + [["keep_rows", [True, False, True, True]], ["iter"], ["copy"],
+                                      ["keep_rows", [False, True, True]], ["copy"], ["truncate", 1]]
+                    for rep in range(3 if tier == "quick" else 12):
+                        yield {"table": name, "incr": rng.choice([0, 1]),
+                               "ops": gen_ops(rng, name, 18, 0.03, 0,
+                                              profile={"empty": frozenset(sub), "p_empty": rng.choice([1.0, 1.0, 0.9]),
+                                                       "fwd": 0.0},
+                                              prefix=prefix)}
         # exhaustive-ish small scope first: every table, every increment, short sequences
-        per = 40 if tier == "quick" else 600
+        per = 50 if tier == "quick" else 600
         for name in TABLES:
             for incr in (0, 1, 2):
                 for _ in range(4 if tier == "quick" else 20):
@@ -1652,7 +1724,7 @@ class Immut(Family):
 
     def generate(self, rng, tier):
         from harness import gen_ts
-        for k in range(60 if tier == "quick" else 1200):
+        for k in range(150 if tier == "quick" else 1200):
             desc = gen_ts.random_desc(rng, max_nodes=rng.choice([4, 6, 8]), migrations=rng.random() < 0.3)
             yield {"desc": desc, "seed": rng.randrange(1 << 30), "ncalls": rng.randrange(10, 41)}
 
@@ -1753,7 +1825,7 @@ class Accessors(Family):
 
     def generate(self, rng, tier):
         from harness import gen_ts
-        for _ in range(12 if tier == "quick" else 150):
+        for _ in range(24 if tier == "quick" else 150):
             yield {"desc": gen_ts.random_desc(rng, max_nodes=rng.choice([3, 6, 8]), migrations=rng.random() < 0.5)}
 
     @staticmethod
